@@ -5,6 +5,7 @@ package main
 
 import (
 	"fmt"
+	"strings"
 	"time"
 
 	"github.com/cosmos/cosmos-sdk/crypto/keys/secp256k1"
@@ -51,7 +52,14 @@ func Addr(name string) sdk.AccAddress {
 	return a
 }
 
-func AddrStr(name string) string { return Addr(name).String() }
+// AddrStr renders an account; an upper-case name ("A1") is the all-upper-case
+// bech32 spelling of the same account (valid, same signer, different string).
+func AddrStr(name string) string {
+	if len(name) == 2 && name[0] == 'A' {
+		return strings.ToUpper(Addr("a" + name[1:]).String())
+	}
+	return Addr(name).String()
+}
 
 // Name abstracts an address; addresses outside the table keep their bech32 form.
 func Name(addr []byte) string {
